@@ -99,6 +99,8 @@ def mk_region(ctx, cls, tag, D, cached, normalised=False):
         demoted = SSet()
     r = Instance(cls, maxdepth=D, pixeldict=levels, demoted=demoted)
     r.tag = tag
+    # "for every history": any attribute the code reads that the representation invariant does not constrain is arbitrary
+    r.havocked = True
     return r
 
 
@@ -493,5 +495,6 @@ def verify(S):
     ctx.explore(canary)
 
 
+ENUMERATED = [{"what": 'proof per enumerated depth: maxdepth 1..3 (quick) / 1..4 (thorough), union also for mixed depths; region contents fully symbolic. Not a proof for arbitrary depth (the default maxdepth is 11).', "counted_as_proved": "per instance"}]
 REPLAY = {"*": "replay_history"}
 NATIVE_CHECKS = [{"func": "crosscheck", "payload": {}}]
